@@ -1446,7 +1446,7 @@ func oracleC17(res *vh.Result, caseNo int, d *entityDecl, dump *dumped, in any) 
 			fail("C17 Events path parameters differ from Get's", "primary-key fields ... appear in declaration order as the path parameters of Get and Events", ql[3].Strs[3])
 		}
 		if len(getP) != len(primaries)+len(shardOnly) {
-			fail("C17 Get path has parameters that are neither primary nor shard keys", "path parameters of Get", ql[1].Strs[3])
+			fail("C17 Get path parameters are not exactly the primary and shard keys", "path parameters of Get", ql[1].Strs[3])
 		}
 	}
 	// the Get and Events requests hold every path key; a primary key is required there too
